@@ -158,12 +158,12 @@ pub fn run(cx: &Ctx) {
     }
     cx.label("generated");
     let max_len = cx.by(2000, 20000);
-    cx.run_pt(&Book, cx.by(600, 12000), cx.workers, move || stream_strategy(max_len), "random streams of 10 kinds, length 5..=20000 (quick 2000)");
+    cx.run_pt(&Book, cx.by(2500, 25000), cx.workers, move || stream_strategy(max_len), "random streams of 10 kinds, length 5..=20000 (quick 2000)");
     let short = || {
         (super::c05::p_strategy(), proptest::collection::vec(prop_oneof![4 => -100.0..100.0f64, 1 => proptest::sample::select(vec![f64::MAX, f64::MIN, 1e308, 1.5e308, -1e308, -1.7e308, 5e-324, -5e-324, 0.0]), 1 => (-300.0..308.0f64, any::<bool>()).prop_map(|(e, s)| if s { -10f64.powf(e) } else { 10f64.powf(e) })], 0..12)).prop_map(|(p, xs)| QStream { p, xs })
     };
     cx.label("generated-short");
-    cx.run_pt(&Book, cx.by(300, 3000), cx.workers, short, "streams of length 0..11 incl. extreme magnitudes (up to f64::MAX, subnormals)");
+    cx.run_pt(&Book, cx.by(3000, 30000), cx.workers, short, "streams of length 0..11 incl. extreme magnitudes (up to f64::MAX, subnormals)");
     cx.label("fixed");
     cx.run_list(&Book, vec![
         // reproducer of known finding K2 (see KNOWN_FINDINGS.txt)
@@ -175,7 +175,7 @@ pub fn run(cx: &Ctx) {
     ps.push(PArg { p: f64::from_bits(0x7ff8_0000_0000_0001) });
     cx.run_list(&NewPanics, ps, "boundary and invalid constructor arguments");
     cx.label("generated");
-    cx.run_pt(&NewPanics, cx.by(200, 2000), cx.workers, || prop_oneof![1 => 0.0..=1.0f64, 1 => any::<f64>()].prop_map(|p| PArg { p }), "uniform p in [0,1] and arbitrary f64 bit patterns");
+    cx.run_pt(&NewPanics, cx.by(2000, 20000), cx.workers, || prop_oneof![1 => 0.0..=1.0f64, 1 => any::<f64>()].prop_map(|p| PArg { p }), "uniform p in [0,1] and arbitrary f64 bit patterns");
 }
 
 pub fn replay(check: &str, case: &serde_json::Value) -> Option<Result<(), String>> {
